@@ -433,6 +433,7 @@ class _Frame(object):
         self.mod = modobj
         self.stack = stack
         self.returns = []     # (cond, node)
+        self.local_funcs = {}  # nested function definitions by name
         self.exits = []       # conds of return/raise
         self.loopctl = []     # stack of lists collecting conds of break/continue
 
@@ -459,6 +460,7 @@ class Summary(object):
         self.depth = depth
         self.inline_module_funcs = inline_module_funcs
         self.effects = []
+        self._ctl_kinds = []
         self.carried = []
         self.tmp = 0
         self.inlined = set()
@@ -672,6 +674,11 @@ class Summary(object):
         if not nm:
             return None
         f = None
+        if '.' not in nm and nm in fr.local_funcs:
+            f = fr.local_funcs[nm]
+            if f.name in fr.stack or len(fr.stack) > self.depth or f.args.vararg or f.args.kwarg:
+                return None
+            return f
         if nm.startswith('self.') and '.' not in nm[5:] and nm[5:] in self.methods:
             f = self.methods[nm[5:]]
         elif nm.startswith('cls.') and '.' not in nm[4:] and nm[4:] in self.methods:
@@ -684,6 +691,8 @@ class Summary(object):
             return None
         if f.name in self.opaque or (self.inline_only is not None and f.name not in self.inline_only):
             return None
+        if self.inline_only is None and not f.name.startswith('_'):
+            return None      # public entry points are summarised on their own, never inlined implicitly
         if f.name in fr.stack or len(fr.stack) > self.depth:
             return None
         if f.args.vararg or f.args.kwarg or any(isinstance(a, ast.Starred) for a in call.args) or any(k.arg is None for k in call.keywords):
@@ -978,6 +987,7 @@ class Summary(object):
         if isinstance(st, (ast.Continue, ast.Break)):
             if fr.loopctl:
                 fr.loopctl[-1].append(pc)
+                self._ctl_kinds.append('break' if isinstance(st, ast.Break) else 'continue')
             self.emit('break' if isinstance(st, ast.Break) else 'continue', fr.func.name, '', pc, st, fr)
             return False
         if isinstance(st, (ast.For, ast.AsyncFor, ast.While)):
@@ -1004,6 +1014,9 @@ class Summary(object):
             return out
         if isinstance(st, ast.Assert):
             return pc
+        if isinstance(st, ast.FunctionDef):
+            fr.local_funcs[st.name] = st
+            return pc
         if isinstance(st, ast.Delete):
             for t in st.targets:
                 for g, n in self.alts(t, env, pc):
@@ -1011,11 +1024,46 @@ class Summary(object):
             return pc
         return pc
 
+    def unroll(self, st, items, env, pc, fr):
+        """a for-loop over a short literal table is executed element by element (break / for-else respected)"""
+        broke = False
+        fr.loopctl.append([])
+        n0 = len(fr.exits)
+        cur = pc
+        for item in items:
+            if cur is False:
+                break
+            m0 = len(fr.loopctl[-1])
+            self.assign_g(st.target, item, env, cur, fr, st)
+            self.block(st.body, env, cur, fr)
+            # `continue` only ends this element; `break` ends the walk
+            new_ctl = fr.loopctl[-1][m0:]
+            brk = [c for c, n in zip(new_ctl, self._ctl_kinds[-len(new_ctl):] if new_ctl else []) if n == 'break'] if new_ctl else []
+            if brk:
+                broke = disj(broke, *brk) if broke is not False else disj(*brk)
+                cur = conj(cur, neg(disj(*brk)))
+            gone = [c for c, k in fr.exits[n0:]]
+            if gone:
+                cur = conj(cur, neg(disj(*gone)))
+        fr.loopctl.pop()
+        after = cur
+        if st.orelse:
+            self.block(st.orelse, env, cur, fr)
+            gone = [c for c, k in fr.exits[n0:]]
+            after = conj(cur, neg(disj(*gone))) if gone else cur
+        if broke is not False:
+            after = disj(after, conj(pc, broke))
+        return after
+
     def loop(self, st, env, pc, fr):
         is_for = isinstance(st, (ast.For, ast.AsyncFor))
         if is_for:
             it = self.prep(st.iter, env, pc, fr)
             self.record_calls(it, env, pc, fr)
+            ia = self.alts(it, env, pc)
+            if len(ia) == 1 and isinstance(ia[0][1], (ast.Tuple, ast.List)) and 0 < len(ia[0][1].elts) <= 8 and \
+                    not any(isinstance(x, ast.Starred) for x in ia[0][1].elts):
+                return self.unroll(st, list(ia[0][1].elts), env, pc, fr)
             it_txt = ' | '.join(t for g, t in self.text_alts(it, env, pc))
         else:
             it_txt = 'while'
@@ -1399,14 +1447,19 @@ def excluded_by(summ, eff, pattern):
     return ev3(eff.cond, dict((a, _presence(a, True)) for a in names)) is False
 
 
+def can_hold(cond, val):
+    """is the condition satisfiable once the atoms of `val` are fixed?  (exact, unlike the 3-valued evaluation)"""
+    return sat(assign(cond, val)) is not False
+
+
 def impossible(summ, eff, spec):
     """the effect cannot happen under the valuation"""
-    return ev3(eff.cond, valuation(summ, spec)) is False
+    return not can_hold(eff.cond, valuation(summ, spec))
 
 
 def allowed(summ, eff, spec):
     """the effect can (or must) happen under the valuation: ev3 is not False"""
-    return ev3(eff.cond, valuation(summ, spec)) is not False
+    return can_hold(eff.cond, valuation(summ, spec))
 
 
 def compatible(e1, e2):
